@@ -178,11 +178,6 @@ package pullapi
 
 // ---- C04 (pull HTTP): the status the consumer sees is the outcome of the store operation ----
 
-//@ extern encoding/json.NewEncoder(w) (enc)
-//@   ensures enc != nil
-//@ extern encoding/json.(*Encoder).Encode(enc, v) (err)
-//@   modifies respStatus
-//@   ensures respStatus == ite(old(respStatus) == 0, 200, old(respStatus))
 //@ func writeJSON
 //@   requires w != nil && status >= 100
 //@   modifies respStatus, maps(http.Header)
